@@ -20,6 +20,7 @@ Proved here:
 NOT a Lean theorem: that the full model's tables and `Core`'s reference log coincide (both are tied
 to the implementation by the correspondence run, not to each other by proof).
 -/
+import Selene.Scope.Coherent
 import Selene.Scope.Lints
 import Selene.Scope.Spec
 import Selene.Scope.CoreProof
@@ -263,5 +264,13 @@ theorem C01_once (hasFields : String → Bool) (σ : St) :
   unfold List.Nodup at hn ⊢
   rw [List.pairwise_reverse]
   exact hn.imp (fun h => fun e => h e.symm)
+
+/-- **C01 (exactly once, for the machine).** For every chunk whose reference tokens carry pairwise distinct indices
+(token indices are positions in source order) and every library predicate: `undefined_variable` over the machine's log
+reports no token twice (`Scope/Coherent.lean`: a read is never preceded by a reference at its token).  With
+`C01_complete` — the unbound, never-assigned name *is* reported at its token — it is reported exactly once. -/
+theorem C01_once_tree (hasFields : String → Bool) (b : Selene.Lua.Block) (h : (Core.refTokens b).Nodup) :
+    (Core.undefinedReports hasFields (Core.analyse b)).Nodup :=
+  Core.undefinedReports_nodup hasFields b h
 
 end Selene.Props.C01
